@@ -5,6 +5,8 @@
 -/
 import PolyVerif.Lemmas.Par
 import PolyVerif.Lemmas.ParCanvas
+import PolyVerif.Lemmas.ParAlloc
+import PolyVerif.Lemmas.ParChan
 import PolyVerif.Gen.Partition
 
 set_option linter.unusedSimpArgs false
@@ -633,5 +635,228 @@ example : (TMesh.mk ['a', 'b', 'c'] [(0, 1, 2)]).WF := by
 /-- the merged mesh is exactly the concatenation of the blocks' triangles (no triangle lost, none invented, none altered) -/
 theorem merge_keeps_all_tris {V : Type} (l : List (TMesh V)) (hwf : ∀ m ∈ l, m.WF) :
     (TMesh.mergeAll l).corners = (l.map TMesh.corners).flatten := TMesh.corners_mergeAll l hwf
+
+/-! ## Part 4 — storage allocation under `chunkMutex`, the channel protocol, the single-CPU delegation
+
+`Model/ParAlloc.lean`: concrete storage `Store` = slot list (`slots[i]` owns `float1Data[i]`; `positions` is its inverse), cell
+memory by (slot, index), and each job's own `index` variable; events `alloc b` (the whole `chunkIndex_atomic` critical section:
+lookup-or-append, atomic because the extractor found `Lock(); defer Unlock()` around it and no store to shared storage anywhere
+else — `Locks.*`) and `upd b k u` (cell update through the job's `index`).  `Store.view` is the canvas as `March` reads it: by
+block, through `positions`; a block without storage reads as the zero value. -/
+
+/-- **slots_any_interleaving** — one `AddField*` call on ANY existing canvas `σ0`, ANY interleaving `s` of its block jobs (any
+    number of workers): afterwards no block has two slots, slots handed out earlier have not moved, a block has a slot iff it had
+    one or is one of the call's blocks — so every block of the call gets exactly one slot — and distinct blocks have distinct slots -/
+theorem slots_any_interleaving {α : Type} (z : α) (F : FieldFns) (d : Dom) (g : Int → Int → Int → α → α)
+    (σ0 : Store α) (h0 : σ0.slots.Nodup) (s : List (SEv α))
+    (hs : Interleaving ((F.blocks d).map (F.cjobLog d g)) s) :
+    (σ0.run z s).slots.Nodup ∧ σ0.slots <+: (σ0.run z s).slots ∧
+    (∀ b, b ∈ (σ0.run z s).slots ↔ b ∈ σ0.slots ∨ b ∈ F.blocks d) ∧
+    (∀ a b, a ∈ (σ0.run z s).slots → b ∈ (σ0.run z s).slots →
+      slotOf (σ0.run z s).slots a = slotOf (σ0.run z s).slots b → a = b) := by
+  have h := slots_of_interleaving z F d g σ0 h0 s hs
+  exact ⟨h.1, h.2.1, h.2.2, fun a b ha hb e => slotOf_inj ha hb e⟩
+
+/-- **slot_table_schedule_independent** — two schedules of the same call may number the new slots differently, but the final
+    tables are permutations of one another (the set of blocks with storage is a function of the job set alone) -/
+theorem slot_table_schedule_independent {α : Type} (z : α) (F : FieldFns) (d : Dom) (g : Int → Int → Int → α → α)
+    (σ0 : Store α) (h0 : σ0.slots.Nodup) (s t : List (SEv α))
+    (hs : Interleaving ((F.blocks d).map (F.cjobLog d g)) s) (ht : Interleaving ((F.blocks d).map (F.cjobLog d g)) t) :
+    (σ0.run z s).slots.Perm (σ0.run z t).slots := by
+  have h1 := slots_of_interleaving z F d g σ0 h0 s hs
+  have h2 := slots_of_interleaving z F d g σ0 h0 t ht
+  rw [List.perm_ext_iff_of_nodup h1.1 h2.1]
+  intro b; rw [h1.2.2 b, h2.2.2 b]
+
+/-- **addFieldParallel_eq_addField_storage** — the headline without the "distinct blocks own distinct arrays" assumption: for
+    every padded domain, sample update, existing canvas `σ0` (any slot table without duplicates, any contents) and EVERY
+    interleaving `s` of the block jobs of `AddFieldParallel` (resp. `AddFieldParallel2`) executed on the CONCRETE storage with
+    allocation under the mutex, the canvas read through `positions` is the canvas after the sequential `AddField` executed on the
+    same storage — slot numbers may differ, contents by block do not. -/
+theorem addFieldParallel_eq_addField_storage {α : Type} (z : α) (d : Dom) (g : Int → Int → Int → α → α)
+    (σ0 : Store α) (h0 : σ0.slots.Nodup) (s : List (SEv α)) :
+    (Interleaving ((addFieldParallelFns.blocks d).map (addFieldParallelFns.cjobLog d g)) s →
+      (σ0.run z s).view z = (σ0.run z ((addFieldFns.blocks d).map (addFieldFns.cjobLog d g)).flatten).view z) ∧
+    (Interleaving ((addFieldParallel2Fns.blocks d).map (addFieldParallel2Fns.cjobLog d g)) s →
+      (σ0.run z s).view z = (σ0.run z ((addFieldFns.blocks d).map (addFieldFns.cjobLog d g)).flatten).view z) := by
+  have hseq := view_of_interleaving z fieldOK_AddField d g σ0 h0 _ (Interleaving.flatten _)
+  have e1 : addFieldParallelFns = addFieldFns := rfl
+  have e2 : addFieldParallel2Fns = addFieldFns := rfl
+  constructor
+  · intro hs; rw [view_of_interleaving z fieldOK_AddFieldParallel d g σ0 h0 s hs, hseq, e1]
+  · intro hs; rw [view_of_interleaving z fieldOK_AddFieldParallel2 d g σ0 h0 s hs, hseq, e2]
+
+/-- …and that common canvas is the block-keyed sequential run of Part 3 (`addFieldParallel_eq_addField`) -/
+theorem addField_storage_view {α : Type} (z : α) (d : Dom) (g : Int → Int → Int → α → α) (σ0 : Store α) (h0 : σ0.slots.Nodup) :
+    (σ0.run z ((addFieldFns.blocks d).map (addFieldFns.cjobLog d g)).flatten).view z
+      = runUpd (σ0.view z) ((addFieldFns.blocks d).map (addFieldFns.jobLog d g)).flatten :=
+  view_of_interleaving z fieldOK_AddField d g σ0 h0 _ (Interleaving.flatten _)
+
+/-- two workers, two colliding allocations: in one schedule block `(0,0,0)` gets slot 0, in the other slot 1 — the slot tables
+    differ, the canvases read by block do not; and a block requested by two jobs gets ONE slot -/
+example :
+    let b1 : Block := (0, 0, 0); let b2 : Block := (1, 0, 0)
+    let s : List (SEv Nat) := [.alloc b1, .alloc b2, .upd b2 5 (· + 7), .upd b1 5 (· + 3)]
+    let t : List (SEv Nat) := [.alloc b2, .alloc b1, .upd b1 5 (· + 3), .upd b2 5 (· + 7)]
+    let σ0 : Store Nat := ⟨[], fun _ => 0, fun _ => 0⟩
+    (σ0.run 0 s).slots = [b1, b2] ∧ (σ0.run 0 t).slots = [b2, b1] ∧
+    (σ0.run 0 s).view 0 (b1, 5) = 3 ∧ (σ0.run 0 t).view 0 (b1, 5) = 3 ∧
+    (σ0.run 0 s).view 0 (b2, 5) = 7 ∧ (σ0.run 0 t).view 0 (b2, 5) = 7 ∧
+    (σ0.run 0 [.alloc b1, .alloc b1, .upd b1 1 (· + 1), .upd b1 1 (· + 1)]).slots = [b1] := by decide
+
+/-! ### channel protocol (`Model/ParChan.lean`)
+
+`Chan.Step` is one step of the system producer ‖ workers ‖ collector over two FIFO channels with capacities (a send needs room,
+or — any capacity, including 0 — a waiting receiver); `Chan.Reach` any finite execution.  The protocol parameters below are the
+ones regenerated from the source (`Sync.*`): mode, channel capacities, number of goroutines, number of sends, collector bound. -/
+
+/-- the counts the protocol theorems need, about the regenerated expressions: `AddFieldParallel` collects one completion per
+    goroutine it started; `AddFieldParallel2` and `marchFloat1Parallel` collect exactly as many results as jobs are sent
+    (for `AddFieldParallel2` this was false before the fix — `len(chunkSections)` collected, `len(Float1Functions)·len(chunkSections)` sent) -/
+theorem protocol_counts (funcs chunks blocks workers : Nat) :
+    Sync.AddFieldParallel.mode = Chan.Mode.perWorker ∧
+    Sync.AddFieldParallel.collects funcs chunks blocks workers = Sync.AddFieldParallel.spawned funcs chunks blocks workers ∧
+    Sync.AddFieldParallel2.mode = Chan.Mode.perJob ∧
+    Sync.AddFieldParallel2.collects funcs chunks blocks workers = Sync.AddFieldParallel2.sends funcs chunks blocks workers ∧
+    Sync.marchFloat1Parallel.mode = Chan.Mode.perJob ∧
+    Sync.marchFloat1Parallel.collects funcs chunks blocks workers = Sync.marchFloat1Parallel.sends funcs chunks blocks workers := by
+  refine ⟨rfl, rfl, rfl, ?_, rfl, rfl⟩
+  simp only [Sync.AddFieldParallel2.collects, Sync.AddFieldParallel2.sends]
+  exact Nat.mul_comm _ _
+
+/-- **addFieldParallel_protocol** — `AddFieldParallel` with the regenerated parameters, any job list of the length the producer
+    sends, any number of goroutines ≥ 1, ANY execution: when the collector loop is done, every job (attribute, block) has been
+    processed exactly once and every goroutine has left its loop -/
+theorem addFieldParallel_protocol {J R : Type} [DecidableEq J] (f : J → R) (funcs chunks blocks workers : Nat) (hw : 0 < workers)
+    (jobs : List J) (c : Chan.Cfg J R)
+    (hr : Chan.Reach Sync.AddFieldParallel.mode (Sync.AddFieldParallel.jobsCap funcs chunks blocks workers)
+      (Sync.AddFieldParallel.resCap funcs chunks blocks workers) f
+      (Chan.init jobs (Sync.AddFieldParallel.spawned funcs chunks blocks workers)
+        (Sync.AddFieldParallel.collects funcs chunks blocks workers)) c)
+    (hdone : c.toCollect = 0) :
+    c.processed.Perm jobs ∧ Chan.exitedCount c.workers = workers ∧ Chan.held c.workers = [] ∧ c.jobsQ = [] ∧ c.toSend = [] :=
+  Chan.perWorker_complete hw hr hdone
+
+/-- **addFieldParallel2_protocol / marchFloat1Parallel_protocol** — result-per-job protocol with the regenerated parameters: for
+    any job list of the length the producer sends, any number of goroutines, ANY execution: when the collector loop is done every
+    job has been processed exactly once and the collector holds exactly one result per job (no lost, no duplicated block result) -/
+theorem addFieldParallel2_protocol {J R : Type} [DecidableEq J] (f : J → R) (funcs chunks blocks workers : Nat)
+    (jobs : List J) (hlen : jobs.length = Sync.AddFieldParallel2.sends funcs chunks blocks workers) (c : Chan.Cfg J R)
+    (hr : Chan.Reach Sync.AddFieldParallel2.mode (Sync.AddFieldParallel2.jobsCap funcs chunks blocks workers)
+      (Sync.AddFieldParallel2.resCap funcs chunks blocks workers) f
+      (Chan.init jobs (Sync.AddFieldParallel2.spawned funcs chunks blocks workers)
+        (Sync.AddFieldParallel2.collects funcs chunks blocks workers)) c)
+    (hdone : c.toCollect = 0) :
+    c.processed.Perm jobs ∧ c.collected = c.processed.map (fun j => Chan.Msg.res (f j)) ∧ c.resQ = [] ∧
+    Chan.held c.workers = [] ∧ c.jobsQ = [] ∧ c.toSend = [] := by
+  rw [(protocol_counts funcs chunks blocks workers).2.2.2.1, ← hlen] at hr
+  exact Chan.perJob_complete hr hdone
+
+theorem marchFloat1Parallel_protocol {J R : Type} [DecidableEq J] (f : J → R) (funcs chunks blocks workers : Nat)
+    (jobs : List J) (hlen : jobs.length = Sync.marchFloat1Parallel.sends funcs chunks blocks workers) (c : Chan.Cfg J R)
+    (hr : Chan.Reach Sync.marchFloat1Parallel.mode (Sync.marchFloat1Parallel.jobsCap funcs chunks blocks workers)
+      (Sync.marchFloat1Parallel.resCap funcs chunks blocks workers) f
+      (Chan.init jobs (Sync.marchFloat1Parallel.spawned funcs chunks blocks workers)
+        (Sync.marchFloat1Parallel.collects funcs chunks blocks workers)) c)
+    (hdone : c.toCollect = 0) :
+    c.processed.Perm jobs ∧ c.collected = c.processed.map (fun j => Chan.Msg.res (f j)) ∧ c.resQ = [] ∧
+    Chan.held c.workers = [] ∧ c.jobsQ = [] ∧ c.toSend = [] := by
+  rw [(protocol_counts funcs chunks blocks workers).2.2.2.2.2, ← hlen] at hr
+  exact Chan.perJob_complete hr hdone
+
+/-- at ANY moment of ANY execution of either protocol no job has been processed twice and none was invented -/
+theorem no_job_twice {J R : Type} [DecidableEq J] (mode : Chan.Mode) (jobsCap resCap : Nat) (f : J → R) (jobs : List J)
+    (n expect : Nat) (c : Chan.Cfg J R) (hr : Chan.Reach mode jobsCap resCap f (Chan.init jobs n expect) c) :
+    ∀ x, c.processed.count x ≤ jobs.count x := Chan.processed_sub hr
+
+
+/-- a complete execution with two workers and two jobs finishing out of order (non-vacuity of `Reach … ∧ toCollect = 0`) -/
+example : ∃ c : Chan.Cfg Nat Nat, Chan.Reach Chan.Mode.perJob 2 2 (fun j => j + 1) (Chan.init [10, 20] 2 2) c ∧
+    c.toCollect = 0 ∧ c.processed = [20, 10] ∧ c.collected = [Chan.Msg.res 21, Chan.Msg.res 11] := by
+  have h := ((((((((((Chan.Reach.refl (mode := Chan.Mode.perJob) (jobsCap := 2) (resCap := 2) (f := fun j : Nat => j + 1) (c0 := Chan.init [10, 20] 2 2)).tail (Chan.Step.send rfl (by decide))).tail
+      (Chan.Step.send rfl (by decide))).tail
+      (Chan.Step.close rfl rfl)).tail
+      (Chan.Step.recv (ws1 := []) (ws2 := [Chan.W.idle]) rfl rfl)).tail
+      (Chan.Step.recv (ws1 := [Chan.W.busy 10]) (ws2 := []) rfl rfl)).tail
+      (Chan.Step.finishSend (ws1 := [Chan.W.busy 10]) (ws2 := []) rfl rfl (by decide))).tail
+      (Chan.Step.finishSend (ws1 := []) (ws2 := [Chan.W.idle]) rfl rfl (by decide))).tail
+      (Chan.Step.collect rfl rfl)).tail
+      (Chan.Step.collect rfl rfl))
+  exact ⟨_, h, rfl, rfl, rfl⟩
+
+/-- **no_deadlock** — with the regenerated capacities, goroutine counts and collector bounds, for any job list of the length
+    the producer sends and at least one goroutine: in EVERY reachable state in which the collector has not finished some step is
+    enabled (nothing is ever stuck: not the producer on a full jobs channel, not a worker on a full results channel, not the
+    collector on results that never come) -/
+theorem no_deadlock {J R : Type} [DecidableEq J] (f : J → R) (funcs chunks blocks workers : Nat) (hw : 0 < workers) (jobs : List J) :
+    (∀ c : Chan.Cfg J R,
+      Chan.Reach Sync.AddFieldParallel.mode (Sync.AddFieldParallel.jobsCap funcs chunks blocks workers)
+        (Sync.AddFieldParallel.resCap funcs chunks blocks workers) f
+        (Chan.init jobs (Sync.AddFieldParallel.spawned funcs chunks blocks workers)
+          (Sync.AddFieldParallel.collects funcs chunks blocks workers)) c → 0 < c.toCollect →
+      ∃ c', Chan.Step Sync.AddFieldParallel.mode (Sync.AddFieldParallel.jobsCap funcs chunks blocks workers)
+        (Sync.AddFieldParallel.resCap funcs chunks blocks workers) f c c') ∧
+    (jobs.length = Sync.AddFieldParallel2.sends funcs chunks blocks workers → ∀ c : Chan.Cfg J R,
+      Chan.Reach Sync.AddFieldParallel2.mode (Sync.AddFieldParallel2.jobsCap funcs chunks blocks workers)
+        (Sync.AddFieldParallel2.resCap funcs chunks blocks workers) f
+        (Chan.init jobs (Sync.AddFieldParallel2.spawned funcs chunks blocks workers)
+          (Sync.AddFieldParallel2.collects funcs chunks blocks workers)) c → 0 < c.toCollect →
+      ∃ c', Chan.Step Sync.AddFieldParallel2.mode (Sync.AddFieldParallel2.jobsCap funcs chunks blocks workers)
+        (Sync.AddFieldParallel2.resCap funcs chunks blocks workers) f c c') ∧
+    (jobs.length = Sync.marchFloat1Parallel.sends funcs chunks blocks workers → ∀ c : Chan.Cfg J R,
+      Chan.Reach Sync.marchFloat1Parallel.mode (Sync.marchFloat1Parallel.jobsCap funcs chunks blocks workers)
+        (Sync.marchFloat1Parallel.resCap funcs chunks blocks workers) f
+        (Chan.init jobs (Sync.marchFloat1Parallel.spawned funcs chunks blocks workers)
+          (Sync.marchFloat1Parallel.collects funcs chunks blocks workers)) c → 0 < c.toCollect →
+      ∃ c', Chan.Step Sync.marchFloat1Parallel.mode (Sync.marchFloat1Parallel.jobsCap funcs chunks blocks workers)
+        (Sync.marchFloat1Parallel.resCap funcs chunks blocks workers) f c c') := by
+  refine ⟨fun c hr hgo => Chan.perWorker_progress hw hw hr hgo, fun hlen c hr hgo => ?_, fun hlen c hr hgo => ?_⟩
+  · rw [(protocol_counts funcs chunks blocks workers).2.2.2.1, ← hlen] at hr
+    refine Chan.perJob_progress hw (fun hne => ?_) hr hgo
+    show 0 < Sync.AddFieldParallel2.resCap funcs chunks blocks workers
+    have : Sync.AddFieldParallel2.resCap funcs chunks blocks workers = jobs.length := by
+      rw [hlen]; simp only [Sync.AddFieldParallel2.resCap, Sync.AddFieldParallel2.sends]; exact Nat.mul_comm _ _
+    rw [this]; exact List.length_pos_iff.mpr hne
+  · rw [(protocol_counts funcs chunks blocks workers).2.2.2.2.2, ← hlen] at hr
+    refine Chan.perJob_progress hw (fun hne => ?_) hr hgo
+    show 0 < Sync.marchFloat1Parallel.resCap funcs chunks blocks workers
+    have : Sync.marchFloat1Parallel.resCap funcs chunks blocks workers = jobs.length := by rw [hlen]; rfl
+    rw [this]; exact List.length_pos_iff.mpr hne
+
+/-- **producer_never_blocks** — `AddFieldParallel2` and `marchFloat1Parallel` size the jobs channel by the number of jobs sent, so
+    in every reachable state the producer's next `jobs <- j` finds room: it cannot block before the collector starts
+    (`AddFieldParallel` sizes it by `len(chunkSections)` while it sends `len(Float1Functions)·len(chunkSections)` jobs: there the
+    producer may wait for a worker, which `no_deadlock` shows is harmless) -/
+theorem producer_never_blocks {J R : Type} [DecidableEq J] (f : J → R) (funcs chunks blocks workers : Nat) (jobs : List J)
+    (n expect : Nat) (c : Chan.Cfg J R) (j : J) (t : List J) (hs : c.toSend = j :: t) :
+    (jobs.length = Sync.AddFieldParallel2.sends funcs chunks blocks workers →
+      Chan.Reach Sync.AddFieldParallel2.mode (Sync.AddFieldParallel2.jobsCap funcs chunks blocks workers)
+        (Sync.AddFieldParallel2.resCap funcs chunks blocks workers) f (Chan.init jobs n expect) c →
+      c.jobsQ.length < Sync.AddFieldParallel2.jobsCap funcs chunks blocks workers) ∧
+    (jobs.length = Sync.marchFloat1Parallel.sends funcs chunks blocks workers →
+      Chan.Reach Sync.marchFloat1Parallel.mode (Sync.marchFloat1Parallel.jobsCap funcs chunks blocks workers)
+        (Sync.marchFloat1Parallel.resCap funcs chunks blocks workers) f (Chan.init jobs n expect) c →
+      c.jobsQ.length < Sync.marchFloat1Parallel.jobsCap funcs chunks blocks workers) := by
+  constructor
+  · intro hlen hr
+    refine Chan.producer_never_blocks ?_ hr hs
+    rw [hlen]; simp only [Sync.AddFieldParallel2.jobsCap, Sync.AddFieldParallel2.sends]
+    exact Nat.le_of_eq (Nat.mul_comm _ _)
+  · intro hlen hr
+    refine Chan.producer_never_blocks ?_ hr hs
+    rw [hlen]; exact Nat.le_refl _
+
+/-- **single_cpu_delegation** (regenerated fact): with `runtime.NumCPU() == 1` `AddFieldParallel` is `AddField` and
+    `marchFloat1Parallel` is `marchFloat1` — the sequential counterpart itself runs, nothing to compare; `AddFieldParallel2`
+    has no such branch and runs the protocol with one goroutine (covered: the protocol theorems hold for every worker count ≥ 1) -/
+theorem single_cpu_delegation :
+    Sync.AddFieldParallel.delegate = some "AddField" ∧ Sync.marchFloat1Parallel.delegate = some "marchFloat1" ∧
+    Sync.AddFieldParallel2.delegate = none := by decide
+
+/-- regeneration pin: the critical-section facts the extractor established (it fails on any other shape) -/
+theorem critical_sections_reported :
+    Locks.allocIsOneCriticalSection = true ∧ Locks.sharedStoreSites = ["chunkIndex_atomic"] ∧
+    Locks.workerReadUnderLock = true ∧ Locks.otherWorkersDoNotAllocate = true := by decide
+
 
 end PolyVerif.C10
